@@ -137,6 +137,8 @@ pub fn weight_of(mode: u8, w: W) -> f64 {
         _ => {
             if w.0 % 4 == 3 {
                 f64::NAN
+            } else if w.0 % 32 == 30 {
+                -0.0
             } else {
                 ((w.0 % 32) as f64 + 1.0) / 4.0
             }
@@ -337,12 +339,41 @@ pub fn mk_node(n: &str, a: Option<i32>) -> Arc<Node<String, i32>> {
     }
 }
 
+thread_local! {
+    /// edge objects handed out during the current case, by (u, v, weight bits)
+    static EDGE_POOL: std::cell::RefCell<(std::collections::HashMap<(String, String, u64), Arc<Edge<String, i32>>>, u64)> = std::cell::RefCell::new((std::collections::HashMap::new(), 0));
+}
+
+/// Forget the edge objects of the previous case (called at the start of every case, so that a
+/// replay is a pure function of the case).
+pub fn reset_edge_pool() {
+    EDGE_POOL.with(|p| {
+        let mut p = p.borrow_mut();
+        p.0.clear();
+        p.1 = 0;
+    });
+}
+
+/// Builds an edge. When an edge with the same endpoints and weight was built earlier in the same
+/// case, every second request hands out a clone of that very `Arc` instead of a new allocation: a
+/// caller may legitimately add one edge object several times (`vec![edge; 2]`), and code that
+/// identifies edges by address must cope with it.
 pub fn mk_edge(u: &str, v: &str, w: f64) -> Arc<Edge<String, i32>> {
-    if w.is_nan() {
-        Edge::new(u.to_string(), v.to_string())
-    } else {
-        Edge::with_weight(u.to_string(), v.to_string(), w)
-    }
+    let fresh = || if w.is_nan() { Edge::new(u.to_string(), v.to_string()) } else { Edge::with_weight(u.to_string(), v.to_string(), w) };
+    EDGE_POOL.with(|p| {
+        let mut p = p.borrow_mut();
+        p.1 += 1;
+        let reuse = p.1 % 2 == 0;
+        let key = (u.to_string(), v.to_string(), wbits(w));
+        if let Some(e) = p.0.get(&key) {
+            if reuse {
+                return e.clone();
+            }
+        }
+        let e: Arc<Edge<String, i32>> = fresh();
+        p.0.insert(key, e.clone());
+        e
+    })
 }
 
 /// Applies `op` to the model and the graph; returns (model result, graph result).
